@@ -127,6 +127,8 @@ def m_config(ch, func, ctype, cfg, csize=None):
 def c_rs(ct, ot, mud, bud, tm, vis=0): return struct.pack('<iiBBbB', ct, ot, mud & 255, bud & 255, tm, vis & 255) + bytes(32)
 def c_fb(ct, ot, tt, mud, bud, tm, ttype, vis=0): return struct.pack('<iiiBBbHHBB', ct, ot, tt, mud & 255, bud & 255, tm, 0, 180, ttype & 255, vis & 255) + bytes(32)
 
+CALL_NAMES = {110: 'channel set-value', 115: 'channel-group set-value', 460: 'calcfg request', 690: 'channel config (get result)',
+              682: 'channel config (set)', 683: 'channel config finished', 70: 'register result', 310: 'firmware url result'}
 RS_FUNCS = [110, 115, 910, 920, 930, 950]; FB_FUNCS = [900, 940]; RELAY_FUNCS = [130, 140, 300]
 STOPPER = 'stopper'
 
@@ -346,8 +348,13 @@ class C03(F.PropCheck):
         if status != 'ok':
             k = len(tr) - 1
             what = ''
-            if 0 <= k < len(evs) and evs[k][0] == 'SRV': what = ' while handling event %d (call %s, %d payload bytes)' % (k, evs[k][1][0], len(evs[k][2]))
-            return ['implementation crashed (%s)%s: memory-safety clause' % (status, what)]
+            if 0 <= k < len(evs) and evs[k][0] == 'SRV':
+                call = int(evs[k][1][0]); p = evs[k][2]
+                kind = 'its handler stops the connection and frees srpc inside srpc_iterate' if is_uaf_message(call, p, b) else CALL_NAMES.get(call, 'message')
+                return ['memory-safety clause, %s: implementation crashed (%s) while handling event %d (call %d, %d payload bytes)' % (kind, status, k, call, len(p))]
+            elif 0 <= k < len(evs):
+                what = ' during the time advance of event %d' % k
+            return ['memory-safety clause: implementation crashed (%s)%s' % (status, what)]
         named = set()
         for (k, vs, cells) in tr:
             if not (0 <= k < len(evs)): continue
